@@ -160,7 +160,7 @@ func (p *Program) Named(pkg, name string) *types.Named {
 	if o == nil {
 		return nil
 	}
-	n, _ := o.Type().(*types.Named)
+	n, _ := types.Unalias(o.Type()).(*types.Named)
 	return n
 }
 
